@@ -299,3 +299,8 @@ def run(ctx):
         jobrules.check_api_table(ctx, "R05.1")
     except Skip:
         pass
+    try:
+        from . import c06 as _c06
+        _c06.stop_plumbing(ctx, "R05.1")      # the restart mode's signal and grace are the parsed --stop-signal / --stop-timeout
+    except Skip:
+        pass
